@@ -56,7 +56,9 @@ META = dict(
          '(C02_encoder_accepts_iff); fieldCode/colCode are characterised outright (C02_numeric_code_iff, C02_uint_code_iff, '
          'C02_chars_code_iff, C02_newref_code_iff, C02_int_column_code_iff, C02_scaledRound_spec, C02_incrWidth_least, '
          'C02_emit_step, C02_emit_refused_iff): a value has no code exactly when it is out of range for the width in force or of the '
-         'wrong kind. On the columns the property quantifies over the column code satisfies the relation ColOK '
+         'wrong kind; the bits are explicitly the concatenation of one field code per supplied value, in order, subset by subset, resp. '
+         'of one column code per flat position (Props/C02Trace.lean: C02_subset_is_concatenation, C02_data_is_concatenation, '
+         'C02_compressed_is_concatenation). On the columns the property quantifies over the column code satisfies the relation ColOK '
          '(C02_column_code_colOK -> C02_column_canonical, C02_colOK_decodes). The proof: encPrimsU = canonPrimsU and '
          'encPrimsC = canonPrimsC (Lemmas/CanonBits*.lean), C01_flat_eq_tree (tree walk = flat reading for all primitives), '
          'encodeSubset_pre (subsets independent). '
